@@ -4,23 +4,28 @@
 # Works on a scratch worktree of /repo under /dev/shm; never touches /repo's working tree.
 D=$1; SLOT=${2:-0}
 PROP=$(basename $(dirname $D)); SLUG=$(basename $D)
+OWNPROP=$PROP
+# CHECK_PROP=<id> runs the check of another property against the same change (result file gets a suffix)
+[ -n "$CHECK_PROP" ] && PROP=$CHECK_PROP
 export GOPROXY=off GOSUMDB=off GOTOOLCHAIN=local PATH=/root/go/pkg/mod/golang.org/toolchain@v0.0.1-go1.25.10.linux-amd64/bin:$PATH
 unset GOFLAGS
 WT=/dev/shm/sw-$SLOT; RES=/dev/shm/mut/results; mkdir -p $RES
-OUT=$RES/${PROP}__${SLUG}
+OUT=$RES/${OWNPROP}__${SLUG}
+[ "$PROP" != "$OWNPROP" ] && OUT=$RES/${OWNPROP}__${SLUG}@${PROP}
 if [ ! -d $WT ]; then git -C /repo worktree add -q --detach $WT HEAD || exit 2; fi
 git -C $WT checkout -q --detach $(git -C /repo rev-parse HEAD) 2>/dev/null
 git -C $WT checkout -- . ; git -C $WT clean -fdq
 t0=$(date +%s)
-# demo without the patch
-bash $D/demo.sh $WT > $OUT.demo_clean.log 2>&1; demo_clean=$?
+# demo without the patch (SKIP_CONFIRM=1: only run the check; used for cross-checks of an already confirmed change)
+if [ -n "$SKIP_CONFIRM" ]; then demo_clean=0; else bash $D/demo.sh $WT > $OUT.demo_clean.log 2>&1; demo_clean=$?; fi
 git -C $WT checkout -- . ; git -C $WT clean -fdq
 if ! git -C $WT apply $D/patch.diff 2> $OUT.apply.log; then echo "{\"property\":\"$PROP\",\"slug\":\"$SLUG\",\"applies\":false}" > $OUT.json; exit 0; fi
-bash $D/demo.sh $WT > $OUT.demo_patched.log 2>&1; demo_patched=$?
+if [ -n "$SKIP_CONFIRM" ]; then demo_patched=1; else bash $D/demo.sh $WT > $OUT.demo_patched.log 2>&1; demo_patched=$?; fi
 git -C $WT clean -fdq
 # existing tests of the touched packages
 pkgs=$(grep '^+++ b/' $D/patch.diff | sed 's#^+++ b/##' | xargs -n1 dirname | sort -u)
 tests_ok=true
+[ -n "$SKIP_CONFIRM" ] && pkgs=""
 for p in $pkgs; do
   (cd $WT && go test -count=1 -p 4 -timeout 40m ./$p/ > $OUT.tests.$(echo $p | tr / _).log 2>&1) || tests_ok=false
 done
@@ -30,10 +35,17 @@ rm -rf /dev/shm/so-$SLOT; mkdir -p /dev/shm/so-$SLOT
 REPO=$WT BIN=/dev/shm/sb-$SLOT VERIF_OUTDIR=/dev/shm/so-$SLOT VERIF_WORKERS=${VERIF_WORKERS:-8} /verif/check $PROP quick > $OUT.check.log 2>&1; rc=$?
 t2=$(date +%s)
 viol=$(grep -c '^VIOLATION' $OUT.check.log)
-first=$(grep -m1 '^violation ' $OUT.check.log | cut -c1-400 | sed 's/"/\\"/g')
 rp=$(grep -m1 '^VIOLATION' $OUT.check.log | sed 's/.*replay=//')
 [ -n "$rp" ] && [ -f "$rp" ] && cp "$rp" $OUT.replay.json
-echo "{\"property\":\"$PROP\",\"slug\":\"$SLUG\",\"applies\":true,\"demo_clean_rc\":$demo_clean,\"demo_patched_rc\":$demo_patched,\"existing_tests_ok\":$tests_ok,\"check_rc\":$rc,\"violations\":$viol,\"check_seconds\":$((t2-t1)),\"confirm_seconds\":$((t1-t0)),\"first_violation\":\"$first\"}" > $OUT.json
+python3 - "$OUT" "$OWNPROP" "$SLUG" "$PROP" "$demo_clean" "$demo_patched" "$tests_ok" "$rc" "$viol" "$((t2-t1))" "$((t1-t0))" <<'PYEOF'
+import json,sys
+out,own,slug,prop,dc,dp,tok,rc,viol,cs,fs=sys.argv[1:12]
+first=""
+for l in open(out+".check.log"):
+    if l.startswith("violation "):
+        first=l.strip()[:400]; break
+json.dump({"property":own,"slug":slug,"checked_property":prop,"applies":True,"demo_clean_rc":int(dc),"demo_patched_rc":int(dp),"existing_tests_ok":tok=="true","check_rc":int(rc),"violations":int(viol),"check_seconds":int(cs),"confirm_seconds":int(fs),"first_violation":first},open(out+".json","w"))
+PYEOF
 git -C $WT checkout -- . ; git -C $WT clean -fdq
 rm -rf /dev/shm/so-$SLOT /dev/shm/sb-$SLOT
 cat $OUT.json
